@@ -452,23 +452,29 @@ Proof.
 Qed.
 
 (* ------------------------------------------------------------------ header *)
-Definition fmt_o_check (m : N) : bool :=
-  if 64 <=? m then
-    match fmt_o m with
+(* the mode prints as exactly three octal digits: always with the three-digit header variant,
+   from 0100 on with the plain "%o" *)
+Definition mode_ok (k : enc_kind) (m : N) : Prop := m < 512 /\ (k_mode_fixed3 k = true \/ 64 <= m).
+
+Definition fmt_mode_check (k : enc_kind) (m : N) : bool :=
+  if k_mode_fixed3 k || (64 <=? m) then
+    match fmt_mode k m with
     | [d0; d1; d2] => is_octal d0 && is_octal d1 && is_octal d2 && in_ascii1 d0 && in_ascii1 d1 && in_ascii1 d2
     | _ => false
     end
   else true.
 
-Lemma fmt_o_check_true : all_below 512 fmt_o_check = true.
-Proof. vm_compute. reflexivity. Qed.
+Lemma fmt_mode_check_true : forall k, all_below 512 (fmt_mode_check k) = true.
+Proof. destruct k; vm_compute; reflexivity. Qed.
 
-Lemma fmt_o_3 : forall m, 64 <= m < 512 -> exists d0 d1 d2, fmt_o m = [d0; d1; d2] /\
+Lemma fmt_mode_3 : forall k m, mode_ok k m -> exists d0 d1 d2, fmt_mode k m = [d0; d1; d2] /\
   is_octal d0 = true /\ is_octal d1 = true /\ is_octal d2 = true /\ asc d0 = 1 /\ asc d1 = 1 /\ asc d2 = 1.
 Proof.
-  intros m Hm. pose proof (all_below_spec _ _ fmt_o_check_true m ltac:(lia)) as E.
-  unfold fmt_o_check in E. replace (64 <=? m) with true in E by (symmetry; apply N.leb_le; lia).
-  destruct (fmt_o m) as [|d0 [|d1 [|d2 [|]]]]; try discriminate.
+  intros k m [Hm Hk]. pose proof (all_below_spec _ _ (fmt_mode_check_true k) m Hm) as E.
+  unfold fmt_mode_check in E.
+  replace (k_mode_fixed3 k || (64 <=? m)) with true in E.
+  2:{ symmetry. destruct Hk as [Hk|Hk]; [rewrite Hk; reflexivity|]. apply orb_true_iff. right. apply N.leb_le. exact Hk. }
+  destruct (fmt_mode k m) as [|d0 [|d1 [|d2 [|]]]]; try discriminate.
   repeat (apply andb_true_iff in E; destruct E as [E ?]). unfold in_ascii1 in *.
   repeat match goal with H : (_ =? _) = true |- _ => apply N.eqb_eq in H end.
   exists d0, d1, d2. repeat split; auto.
@@ -481,17 +487,17 @@ Definition name_ok (name : list N) : Prop :=
 Definition data_state (k : enc_kind) : ustate :=
   match k with KUU => ST_READ_UU | KB64 => ST_READ_BASE64 end.
 
-Lemma header_shape : forall k mode name d0 d1 d2 rest, fmt_o mode = [d0; d1; d2] ->
+Lemma header_shape : forall k mode name d0 d1 d2 rest, fmt_mode k mode = [d0; d1; d2] ->
   enc_header k mode name ++ rest = (k_prefix k ++ [d0; d1; d2; 32] ++ name) ++ 10 :: rest.
 Proof.
   intros. unfold enc_header. rewrite H. repeat rewrite <- app_assoc. reflexivity.
 Qed.
 
-Lemma header_step : forall k f got mode name rest, 64 <= mode < 512 -> name_ok name ->
+Lemma header_step : forall k f got mode name rest, mode_ok k mode -> name_ok name ->
   uu_loop (S f) ST_FIND_HEAD got (enc_header k mode name ++ rest) = uu_loop f (data_state k) got rest.
 Proof.
   intros k f got mode name rest Hm (Hne & Hpr & Hlen).
-  destruct (fmt_o_3 mode Hm) as (d0 & d1 & d2 & E & O0 & O1 & O2 & A0 & A1 & A2).
+  destruct (fmt_mode_3 k mode Hm) as (d0 & d1 & d2 & E & O0 & O1 & O2 & A0 & A1 & A2).
   rewrite (header_shape k mode name d0 d1 d2 rest E).
   set (pre := k_prefix k ++ [d0; d1; d2; 32] ++ name).
   assert (PA : Forall (fun c => asc c = 1) pre).
@@ -607,7 +613,7 @@ Lemma encode_all_pieces : forall k mode name s,
   enc_header k mode name ++ (concat (map (k_line k) (chop (k_LB k) (length s) s)) ++ k_trailer k).
 Proof. intros. unfold encode_all. rewrite enc_lines_chop. reflexivity. Qed.
 
-Lemma decode_fuel : forall k mode name s fuel got, 64 <= mode < 512 -> name_ok name -> bytes_ok s ->
+Lemma decode_fuel : forall k mode name s fuel got, mode_ok k mode -> name_ok name -> bytes_ok s ->
   (length (chop (k_LB k) (length s) s) + 4 <= fuel)%nat ->
   uu_loop fuel ST_FIND_HEAD got (encode_all k mode name s) = Some s.
 Proof.
@@ -631,7 +637,7 @@ Proof.
   rewrite app_length. pose proof (line_nonempty k a). lia.
 Qed.
 
-Theorem roundtrip : forall k mode name s, 64 <= mode < 512 -> name_ok name -> bytes_ok s ->
+Theorem roundtrip : forall k mode name s, mode_ok k mode -> name_ok name -> bytes_ok s ->
   uu_decode (encode_all k mode name s) = Some s.
 Proof.
   intros k mode name s Hm Hn Hs. unfold uu_decode.
@@ -933,7 +939,7 @@ Qed.
 (* ------------------------------------------------------------------ the bidder accepts the writer's output *)
 Definition hk (k : enc_kind) : nat := match k with KUU => 6%nat | KB64 => 13%nat end.
 
-Lemma header_line : forall k mode name rest, 64 <= mode < 512 -> name_ok name ->
+Lemma header_line : forall k mode name rest, mode_ok k mode -> name_ok name ->
   exists len, get_line (enc_header k mode name ++ rest) 0 = Some (S len, 1%nat) /\
               skipn (S len) (enc_header k mode name ++ rest) = rest /\
               head_kind (enc_header k mode name ++ rest) (S len) 1 = hk k /\
@@ -941,7 +947,7 @@ Lemma header_line : forall k mode name rest, 64 <= mode < 512 -> name_ok name ->
               exists x y, enc_header k mode name ++ rest = x :: y.
 Proof.
   intros k mode name rest Hm (Hne & Hpr & Hlen).
-  destruct (fmt_o_3 mode Hm) as (d0 & d1 & d2 & E & O0 & O1 & O2 & A0 & A1 & A2).
+  destruct (fmt_mode_3 k mode Hm) as (d0 & d1 & d2 & E & O0 & O1 & O2 & A0 & A1 & A2).
   rewrite (header_shape k mode name d0 d1 d2 rest E).
   set (pre := k_prefix k ++ [d0; d1; d2; 32] ++ name).
   assert (PA : Forall (fun c => asc c = 1) pre).
@@ -971,7 +977,7 @@ Proof.
     unfold at_. cbn [nth Nat.add]. rewrite O0, O1, O2. reflexivity.
 Qed.
 
-Lemma bid_find_header : forall k f total mode name rest, 64 <= mode < 512 -> name_ok name ->
+Lemma bid_find_header : forall k f total mode name rest, mode_ok k mode -> name_ok name ->
   bid_find (S f) total 20 (enc_header k mode name ++ rest) = Some (hk k, 20, rest).
 Proof.
   intros k f total mode name rest Hm Hn.
@@ -1111,7 +1117,7 @@ Proof.
   cbn [length]. replace (S (length s) - 1)%nat with (length s) by lia. reflexivity.
 Qed.
 
-Theorem bid_positive : forall k mode name s, 64 <= mode < 512 -> name_ok name -> bytes_ok s -> s <> [] ->
+Theorem bid_positive : forall k mode name s, mode_ok k mode -> name_ok name -> bytes_ok s -> s <> [] ->
   0 < uu_bid (encode_all k mode name s).
 Proof.
   intros k mode name s Hm Hn Hs Hne.
@@ -1129,7 +1135,7 @@ Proof.
   - rewrite (bid_second_uu p ps 20 Hp Hps). lia.
 Qed.
 
-Theorem reader_roundtrip : forall k mode name s, 64 <= mode < 512 -> name_ok name -> bytes_ok s ->
+Theorem reader_roundtrip : forall k mode name s, mode_ok k mode -> name_ok name -> bytes_ok s ->
   s <> [] -> uu_bid s = 0 ->
   read_uu_only (encode_all k mode name s) = Some ([ARCHIVE_FILTER_UU; ARCHIVE_FILTER_NONE], s).
 Proof.
